@@ -176,7 +176,7 @@ func init() {
 	add(Spec{
 		PropSpec: vlib.PropSpec{
 			ID: "C14", Level: "fault_enumeration",
-			Rule: "Files are produced by the library's writers from PRNG packet sequences (0..9 packets; data 0..120 bytes, a 1400..1600 tier, lengths not multiple of 4; caplen <= len; timestamps over the representable range incl. 0 / 999 999 999 ns / sub-microsecond): classic pcap us and ns (snaplen = max caplen, larger, 262144, or 0; 5 link types) and pcapng (1..4 interfaces added while writing, same or mixed link types, names/comments/descriptions/filters/OS/tsoffset/snaplen, section info, per-packet comments incl. empty strings and every length mod 4, flags, hashes, drop count, packet id, queue, verdicts, interface statistics blocks in between); the writer-side log records the file offset after each flushed packet. roundtrip phase: read back with ReadPacketData, ReadPacketDataWithOptions and ZeroCopyReadPacketData and compare data, lengths, interface / link type, options, timestamps to file resolution, section and interface descriptions; must end with io.EOF. truncate phase (crash-point enumeration): for every generated file (<= 6 KiB) and every read API, EVERY byte offset k in 0..len is cut and read: the packets returned before the first error must be exactly those whose end offset <= k, equal to the full-file read, and the terminating error (constructor or read) must satisfy errors.Is(io.EOF) or errors.Is(io.ErrUnexpectedEOF). libpcap phase: the same writers' files (classic us/ns, single-link-type pcapng) are read with pcap.OpenOffline and compared (data, caplen, len, timestamp to the microsecond, link type). Non-trivial = file with >= 3 packets and (per-packet options or a data length not multiple of 4); distinct by file content hash.",
+			Rule:        "Files are produced by the library's writers from PRNG packet sequences (0..9 packets; data 0..120 bytes, a 1400..1600 tier, lengths not multiple of 4; caplen <= len; timestamps over the representable range incl. 0 / 999 999 999 ns / sub-microsecond): classic pcap us and ns (snaplen = max caplen, larger, 262144, or 0; 5 link types) and pcapng (1..4 interfaces added while writing, same or mixed link types, names/comments/descriptions/filters/OS/tsoffset/snaplen, section info, per-packet comments incl. empty strings and every length mod 4, flags, hashes, drop count, packet id, queue, verdicts, interface statistics blocks in between); the writer-side log records the file offset after each flushed packet. roundtrip phase: read back with ReadPacketData, ReadPacketDataWithOptions and ZeroCopyReadPacketData and compare data, lengths, interface / link type, options, timestamps to file resolution, section and interface descriptions; must end with io.EOF. truncate phase (crash-point enumeration): for every generated file (<= 6 KiB) and every read API, EVERY byte offset k in 0..len is cut and read: the packets returned before the first error must be exactly those whose end offset <= k, equal to the full-file read, and the terminating error (constructor or read) must satisfy errors.Is(io.EOF) or errors.Is(io.ErrUnexpectedEOF). libpcap phase: the same writers' files (classic us/ns, single-link-type pcapng) are read with pcap.OpenOffline and compared (data, caplen, len, timestamp to the microsecond, link type). Non-trivial = file with >= 3 packets and (per-packet options or a data length not multiple of 4); distinct by file content hash.",
 			Assumptions: []string{"generator respects the formats' own preconditions: caplen <= len, caplen <= snaplen when snaplen != 0, 0 <= Unix time < 2^32 s (classic), 1970..2262 (pcapng), strings < 64 KiB", "crash points are enumerated exhaustively per file; files are sampled", "libpcap (system library) is the independent reader of the cross-check"},
 			Phases: []vlib.Phase{
 				{Name: "roundtrip", Bin: "vchild", Quick: 16, Thorough: 16},
@@ -193,7 +193,7 @@ func init() {
 	add(Spec{
 		PropSpec: vlib.PropSpec{
 			ID: "C15", Level: "exploration",
-			Rule: "hostile phase: base streams = files written by the library's writers (classic us/ns, pcapng with several interfaces/options/statistics), hand-built snoop captures and the capture fixtures found under /repo; for each base a field walker lists every header field of every block/record/option (block type/length/trailer, SHB, IDB, EPB, ISB fixed fields, every option code and length, if_tsresol value, classic file and record headers, snoop header and record headers) and each field is overwritten with boundary values {0,1,3,4,7,8,11,12,15,16,..,v+-1,v+-4,len,0xffff,0x10000,2^31-1,2^31,2^32-16,2^32-1} in the file's byte order (1 in 8 in the other one), if_tsresol with all 256 values, every option length with 0..16; plus bit flips, byte substitutions, truncation, splices of two files, block repeats, random bytes, and the wrong reader for the format. Each stream is read to the first error with ReadPacketData or ZeroCopyReadPacketData (pcapng: default / WantMixedLinkType / SkipUnknownVersion). Monitors per call: no panic, CPU/heap watchdog, len(data)==CaptureLength<=Length, at most len/4+16 successful calls, bytes allocated by one call (runtime/metrics /gc/heap/allocs:bytes) <= 4 MiB + 4*(stream length + declared snap length) (4 MiB covers bufio and a gzip decompressor). chunking phase: the same stream through 1-byte, 1..7-byte, 4-byte, half and data-with-EOF readers and gzip-wrapped must give the same packets and final error; damaged gzip must not panic. faults phase: an injected I/O error at EVERY byte position of valid files (<= 2 KiB): packets before the position as in the clean run, then an error, never a panic. Non-trivial = stream on which the reader got past the file/section header; distinct by stream hash.",
+			Rule:        "hostile phase: base streams = files written by the library's writers (classic us/ns, pcapng with several interfaces/options/statistics), hand-built snoop captures and the capture fixtures found under /repo; for each base a field walker lists every header field of every block/record/option (block type/length/trailer, SHB, IDB, EPB, ISB fixed fields, every option code and length, if_tsresol value, classic file and record headers, snoop header and record headers) and each field is overwritten with boundary values {0,1,3,4,7,8,11,12,15,16,..,v+-1,v+-4,len,0xffff,0x10000,2^31-1,2^31,2^32-16,2^32-1} in the file's byte order (1 in 8 in the other one), if_tsresol with all 256 values, every option length with 0..16; plus bit flips, byte substitutions, truncation, splices of two files, block repeats, random bytes, and the wrong reader for the format. Each stream is read to the first error with ReadPacketData or ZeroCopyReadPacketData (pcapng: default / WantMixedLinkType / SkipUnknownVersion). Monitors per call: no panic, CPU/heap watchdog, len(data)==CaptureLength<=Length, at most len/4+16 successful calls, bytes allocated by one call (runtime/metrics /gc/heap/allocs:bytes) <= 4 MiB + 4*(stream length + declared snap length) (4 MiB covers bufio and a gzip decompressor). chunking phase: the same stream through 1-byte, 1..7-byte, 4-byte, half and data-with-EOF readers and gzip-wrapped must give the same packets and final error; damaged gzip must not panic. faults phase: an injected I/O error at EVERY byte position of valid files (<= 2 KiB): packets before the position as in the clean run, then an error, never a panic. Non-trivial = stream on which the reader got past the file/section header; distinct by stream hash.",
 			Assumptions: []string{"mutated headers keep the declared snap length <= 16 MiB so that a conforming reader stays small", "an injected I/O error may surface as a different (non-nil) error; that is counted, not a violation"},
 			Phases: []vlib.Phase{
 				{Name: "hostile", Bin: "vchild", Quick: 16, Thorough: 16},
@@ -211,7 +211,7 @@ func init() {
 	add(Spec{
 		PropSpec: vlib.PropSpec{
 			ID: "C19", Level: "exploration",
-			Rule: decodeCorpus + " Each (type, input) goes through three unrecovered entry points: NewPacket with SkipDecodeRecovery (Lazy x DecodeStreamsAsDatagrams) + Layers(); DecodeFromBytes of every type implementing DecodingLayer (discovered by reflection), on a fresh and on a previously used object, followed by NextLayerType/CanDecode/LayerPayload; a DecodingLayerParser over all known decoding layers with IgnorePanic. Any panic, fatal error or CPU/heap runaway is a violation; a returned error is success. Non-trivial = input at least as long as the shortest input on which that type's DecodeFromBytes returned nil in this run; distinct by (type, input hash).",
+			Rule:        decodeCorpus + " Each (type, input) goes through three unrecovered entry points: NewPacket with SkipDecodeRecovery (Lazy x DecodeStreamsAsDatagrams) + Layers(); DecodeFromBytes of every type implementing DecodingLayer (discovered by reflection), on a fresh and on a previously used object, followed by NextLayerType/CanDecode/LayerPayload; a DecodingLayerParser over all known decoding layers with IgnorePanic. Any panic, fatal error or CPU/heap runaway is a violation; a returned error is success. Non-trivial = input at least as long as the shortest input on which that type's DecodeFromBytes returned nil in this run; distinct by (type, input hash).",
 			Assumptions: []string{"checkptr instrumentation is on (-gcflags=all=-d=checkptr)", "types for which no input ever decoded successfully are listed in the evidence as never entered"},
 			Phases: []vlib.Phase{
 				{Name: "norecover", Bin: "vchild", Quick: 16, Thorough: 16},
@@ -226,7 +226,7 @@ func init() {
 	add(Spec{
 		PropSpec: vlib.PropSpec{
 			ID: "C01", Level: "exploration",
-			Rule: decodeCorpus + " total phase: each (type, input) is decoded under all 16 combinations of Lazy/NoCopy/Pool/DecodeStreamsAsDatagrams (recovery on), followed by a PRNG-ordered program of read-only uses with repeats (Layers, Layer of own and foreign types, LayerClass over 7 classes, Link/Network/Transport/Application/ErrorLayer, Metadata, Data, VerifyChecksums, flows, per layer LayerContents/Payload, VerifyChecksum; on 3 of the 16 option sets also String, Dump, LayerString/LayerDump/LayerGoString and %v/%+v of every layer), a 64 KiB tier, and every prefix of one seed per type. Oracles: no panic / fatal error / CPU-heap runaway; error-layer bookkeeping (every DecodeFailure or ErrorLayer-implementing layer is last, is what ErrorLayer() returns, ErrorLayer() is an element of Layers()); two independent could-not-decode witnesses (the same input panics with recovery off; DecodeFromBytes of the first layer returns an error) imply a non-nil error layer; error-ness agrees across Lazy/NoCopy/Pool for non-empty inputs. wellformed phase: packets built byte by byte with correct lengths and checksums must decode with a nil error layer and no truncation flag under all 16 option sets. Non-trivial = packet with >= 2 layers or an error layer; distinct by (type, input hash).",
+			Rule:        decodeCorpus + " total phase: each (type, input) is decoded under all 16 combinations of Lazy/NoCopy/Pool/DecodeStreamsAsDatagrams (recovery on), followed by a PRNG-ordered program of read-only uses with repeats (Layers, Layer of own and foreign types, LayerClass over 7 classes, Link/Network/Transport/Application/ErrorLayer, Metadata, Data, VerifyChecksums, flows, per layer LayerContents/Payload, VerifyChecksum; on 3 of the 16 option sets also String, Dump, LayerString/LayerDump/LayerGoString and %v/%+v of every layer), a 64 KiB tier, and every prefix of one seed per type. Oracles: no panic / fatal error / CPU-heap runaway; error-layer bookkeeping (every DecodeFailure or ErrorLayer-implementing layer is last, is what ErrorLayer() returns, ErrorLayer() is an element of Layers()); two independent could-not-decode witnesses (the same input panics with recovery off; DecodeFromBytes of the first layer returns an error) imply a non-nil error layer; error-ness agrees across Lazy/NoCopy/Pool for non-empty inputs. wellformed phase: packets built byte by byte with correct lengths and checksums must decode with a nil error layer and no truncation flag under all 16 option sets. Non-trivial = packet with >= 2 layers or an error layer; distinct by (type, input hash).",
 			Assumptions: []string{"'everything decoded => error layer nil' is asserted only where it is known by construction (well-formed constructed packets)", "checkptr instrumentation is on"},
 			Phases: []vlib.Phase{
 				{Name: "total", Bin: "vchild", Quick: 16, Thorough: 16},
@@ -242,7 +242,7 @@ func init() {
 	add(Spec{
 		PropSpec: vlib.PropSpec{
 			ID: "C02", Level: "exploration",
-			Rule: decodeCorpus + " determinism phase: for each (type, input, one of the 16 recovery-on option sets): the canonical signature (layer types, every field of every layer incl. unexported ones, contents, payloads, special-layer indices, metadata, Data(), String()) of the packet decoded from an exact copy is compared with (1) a second decode after 1..5 other corpus packets of any type were decoded and rendered, (1b) a decode of the same bytes embedded in a larger buffer with other content behind them (spare capacity), (2) a decode from a read-only mmap'ed region that ends at an inaccessible guard page, followed by the whole read-only accessor program of C01 (VerifyChecksums, String, Dump, LayerGoString ...): a write faults (write-to-input), a read past the end faults (read-beyond-input); the buffer is byte-compared afterwards. concurrent phase (race build, GOMAXPROCS=8): (3) 4..8 goroutines decode overlapping sets of inputs simultaneously and compare with the sequential signatures; (4) 4..8 goroutines run the accessor program incl. VerifyChecksums (network layer attached) and String on ONE eager packet (Default and NoCopy): equal answers, packet signature, Data() and the caller's buffer unchanged afterwards, race detector log parsed. Non-trivial = packet with >= 3 layers (determinism) / >= 3 layers and a checksum-carrying layer (shared readers); distinct by (type, input hash).",
+			Rule:        decodeCorpus + " determinism phase: for each (type, input, one of the 16 recovery-on option sets): the canonical signature (layer types, every field of every layer incl. unexported ones, contents, payloads, special-layer indices, metadata, Data(), String()) of the packet decoded from an exact copy is compared with (1) a second decode after 1..5 other corpus packets of any type were decoded and rendered, (1b) a decode of the same bytes embedded in a larger buffer with other content behind them (spare capacity), (2) a decode from a read-only mmap'ed region that ends at an inaccessible guard page, followed by the whole read-only accessor program of C01 (VerifyChecksums, String, Dump, LayerGoString ...): a write faults (write-to-input), a read past the end faults (read-beyond-input); the buffer is byte-compared afterwards. concurrent phase (race build, GOMAXPROCS=8): (3) 4..8 goroutines decode overlapping sets of inputs simultaneously and compare with the sequential signatures; (4) 4..8 goroutines run the accessor program incl. VerifyChecksums (network layer attached) and String on ONE eager packet (Default and NoCopy): equal answers, packet signature, Data() and the caller's buffer unchanged afterwards, race detector log parsed. Non-trivial = packet with >= 3 layers (determinism) / >= 3 layers and a checksum-carrying layer (shared readers); distinct by (type, input hash).",
 			Assumptions: []string{"signature equality is the definition of 'identical packet' (nil and empty slices equal; addresses and capacities ignored; DecodeFailure stack text ignored)", "debug.SetPanicOnFault turns faults on the read-only/guard pages into recoverable panics"},
 			Phases: []vlib.Phase{
 				{Name: "determinism", Bin: "vchild", Quick: 16, Thorough: 16},
@@ -258,7 +258,7 @@ func init() {
 	add(Spec{
 		PropSpec: vlib.PropSpec{
 			ID: "C03", Level: "exploration",
-			Rule: decodeCorpus + " For every non-empty (type, input) and NoCopy/DecodeStreamsAsDatagrams on/off, accessor programs are run side by side on the eager packet and on a fresh lazy packet: for every own layer type the program that starts with Layer(that type); every special-layer accessor as first call; every ordered pair of Layer(own type) calls for packets of <= 5 layers; and PRNG programs of 1..12 calls (with immediate repeats) over {Layer(own/foreign type), LayerClass(7 classes), LinkLayer, NetworkLayer, TransportLayer, ApplicationLayer, ErrorLayer, Layers, String, Dump}. After every step the results are compared (nil-ness, layer type, all field values, contents, payload; whole list for Layers; text for String/Dump), and at the end the full packet signatures incl. truncation flag and String(). Non-trivial = packet with >= 3 layers and a program whose first call does not request all layers; distinct by (type, input, program) hash.",
+			Rule:        decodeCorpus + " For every non-empty (type, input) and NoCopy/DecodeStreamsAsDatagrams on/off, accessor programs are run side by side on the eager packet and on a fresh lazy packet: for every own layer type the program that starts with Layer(that type); every special-layer accessor as first call; every ordered pair of Layer(own type) calls for packets of <= 5 layers; and PRNG programs of 1..12 calls (with immediate repeats) over {Layer(own/foreign type), LayerClass(7 classes), LinkLayer, NetworkLayer, TransportLayer, ApplicationLayer, ErrorLayer, Layers, String, Dump}. After every step the results are compared (nil-ness, layer type, all field values, contents, payload; whole list for Layers; text for String/Dump), and at the end the full packet signatures incl. truncation flag and String(). Non-trivial = packet with >= 3 layers and a program whose first call does not request all layers; distinct by (type, input, program) hash.",
 			Assumptions: []string{"Dump() is not compared when the packet ends in a DecodeFailure: its text contains the goroutine stack of the recovered panic"},
 			Phases: []vlib.Phase{
 				{Name: "lazy", Bin: "vchild", Quick: 16, Thorough: 16},
